@@ -1,4 +1,4 @@
-import Qv.Proofs.BruteSolve
+import Qv.Proofs.BruteEntry
 /-!
 # C09 — Brute-force solvers return the exact minimum and exactly the minimisers
 
@@ -156,6 +156,220 @@ theorem model_unchanged {fn : Fn} {D : Model} {allS : Bool} {valid : Assign → 
     · exact Or.inl hkind
     · exact Or.inr (hz hkind _ (get_mem_of_hasKey hk))
 
+/-! ## The concrete entry points
+
+The theorems above are about `_solve_bruteforce` on an abstract argument that satisfies `Setup`.  Below, `Setup` is
+*proved* for every argument the public entry points can be handed, so the hypotheses that remain are about the
+caller's input only.  Model of the entry points: `Qv/Model/BruteEntry.lean` —
+
+* `ofDict P`: a plain `dict`; `ofState s`: a model object in bookkeeping state `s` (the state machine of C14; the
+  object after **any** history of edits is `Book.run Fix.fixed κ ops`);
+* the four free functions are `solve .pubo/.qubo/.puso/.quso` (every theorem quantifies over `fn`);
+* `obj.solve_bruteforce(all)` = `solve_<fnOfKind>_bruteforce(obj, all, obj.is_solution_valid)[1]`: `methodPlain`
+  for the eight unconstrained types (`is_solution_valid` ≡ `True`), `methodCons` for `PCBO` / `PCSO`.
+  There is no `to_pubo → solve → convert_solution` round trip in the code: for the labelled types the enumeration
+  runs over `[_reverse_mapping[0], …, _reverse_mapping[N-1]]` (= `bookVars s`), i.e. over the user's own labels, and
+  the glue is that this list is well defined, repetition-free and lists exactly the object's variables
+  (`reverse_mapping_enumeration`).  Matrix objects and plain dicts are scanned for their labels into a Python
+  `set`; `SetOrder p order` says `order` is *some* iteration order of that set, and nothing depends on which.
+
+`Holds fn D allS valid order vars` is the whole property for one call (`holds_reads` spells it out);
+`SolSpec …` is its solution part, which is all the methods return. -/
+
+/-- **What `Holds` says**, spelled out: the call returns `(obj, sol)` and leaves `after` with
+(1) nothing accepted ⇒ `obj = None`, `sol = {}` / `[{}]`;
+(2) something accepted ⇒ `obj = m`, a lower bound of the model over all accepted assignments over `vars`, attained
+    by an accepted assignment over exactly `vars` — the returned one when `all_solutions=False`; and with
+    `all_solutions=True` a duplicate-free list whose members are exactly the accepted assignments of value `m`;
+(3) the terms afterwards are a permutation of the terms before. -/
+theorem holds_reads {fn : Fn} {D : Model} {allS : Bool} {valid : Assign → Bool} {order vars : List Var} :
+    Holds fn D allS valid order vars ↔
+    ∃ out, solve fn D allS valid order = .ok out ∧
+      (((∀ g, Dom fn.spin g → valid (restrict vars g) = false) → out.obj = none ∧ out.sol = emptySol allS) ∧
+       ((∃ g, Dom fn.spin g ∧ valid (restrict vars g) = true) → ∃ m, out.obj = some m ∧
+          (∀ g, Dom fn.spin g → valid (restrict vars g) = true → m ≤ eval g D.terms) ∧
+          (∃ g, Dom fn.spin g ∧ valid (restrict vars g) = true ∧ eval g D.terms = m ∧
+            (allS = false → out.sol = .one (restrict vars g))) ∧
+          (allS = true → ∃ l, out.sol = .many l ∧ l.Nodup ∧
+            ∀ a, a ∈ l ↔ ∃ g, Dom fn.spin g ∧ a = restrict vars g ∧ valid a = true ∧ eval g D.terms = m))) ∧
+      out.after.Perm D.terms := Iff.rfl
+
+/-- an assignment "over exactly `vars`": its keys are `vars`, in that order, each once -/
+theorem assignment_over_exactly_vars (vars : List Var) (g : Var → Rat) :
+    (restrict vars g).map Prod.fst = vars := restrict_keys vars g
+
+/-- **Glue for the labelled types (`QUBO, QUSO, PUBO, PUSO, PCBO, PCSO`), after every history of edits.**
+`[_reverse_mapping[0], …, _reverse_mapping[num_binary_variables-1]]` raises no `KeyError`, has no repetition, and
+its members are exactly the variables the object reports — which include every label of every stored key. -/
+theorem reverse_mapping_enumeration {κ : Kind} {ops : List Book.Op} {s : Book.State}
+    (hs : s = Book.run Book.Fix.fixed κ ops) (hb : Book.hasBO s.kind = true) :
+    (List.range s.numVars).mapM (rmLookup s.reverse) = .ok (bookVars s) ∧ (bookVars s).Nodup ∧
+    (∀ i, i ∈ bookVars s ↔ i ∈ s.variables) ∧ ∀ kv ∈ s.terms, ∀ i ∈ kv.1, i ∈ bookVars s := by
+  subst hs
+  obtain ⟨h0, h1, h2, h3⟩ := inv_of_run κ ops
+  obtain ⟨b1, b2, _⟩ := bookVars_ok h2 (h3 hb).2.2
+  obtain ⟨W, hmem⟩ := setupW_labelled (fn := .pubo) [] hb h0 h1 h2 h3 trivial
+  exact ⟨b1, b2, hmem, W.covers⟩
+
+/-- **The four free functions on a plain dict.**  `P` any dict (distinct keys — raw, unsorted, repeated labels,
+zero coefficients allowed), `order` any iteration order of the set of its labels, any `valid`, both modes; for the
+two degree-2 solvers the documented precondition (keys of at most two labels).  The property holds whenever the
+dict has a non-constant key or `valid` accepts `{}`. -/
+theorem free_on_dict (fn : Fn) {P : Poly} {order : List Var} (hd : IsDict P) (ho : SetOrder P order)
+    (hdeg : fn.DegOK P) (allS : Bool) (valid : Assign → Bool)
+    (h : (ofDict P).isConst = false ∨ valid [] = true) :
+    Holds fn (ofDict P) allS valid order order :=
+  holds_of_setup (setup_of_scan rfl hd ho hdeg) (fun hk => absurd rfl hk) allS valid h
+
+/-- **The four free functions on a Matrix object** (`QUBOMatrix, QUSOMatrix, PUBOMatrix, PUSOMatrix`) **after any
+history of edits, refreshed or not**: the solver scans the stored keys, so cancelled variables and stale caches
+are invisible to it.  `FnFits`: a degree-2 solver is given a degree-2 type. -/
+theorem free_on_matrix (fn : Fn) {κ : Kind} {ops : List Book.Op} {s : Book.State} {order : List Var}
+    (hs : s = Book.run Book.Fix.fixed κ ops) (hm : Book.hasBO s.kind = false)
+    (ho : SetOrder s.terms order) (hf : FnFits fn s.kind) (allS : Bool) (valid : Assign → Bool)
+    (h : (ofState s).isConst = false ∨ valid [] = true) :
+    Holds fn (ofState s) allS valid order order := by
+  subst hs
+  have h0 := (inv_of_run κ ops).1
+  exact holds_of_setup (setup_matrix hm h0 ho hf) (ofState_nonzero h0) allS valid h
+
+/-- **The four free functions on a labelled object after any history of edits, not refreshed.**  The enumeration
+runs over `bookVars s` = the variables the object reports (a variable whose terms cancelled in place stays one
+until `refresh()`); for a model with a stored non-constant key the property holds over exactly those variables. -/
+theorem free_on_labelled (fn : Fn) {κ : Kind} {ops : List Book.Op} {s : Book.State} (order : List Var)
+    (hs : s = Book.run Book.Fix.fixed κ ops) (hb : Book.hasBO s.kind = true) (hf : FnFits fn s.kind)
+    (allS : Bool) (valid : Assign → Bool) (hnc : (ofState s).isConst = false) :
+    Holds fn (ofState s) allS valid order (bookVars s) := by
+  subst hs
+  obtain ⟨h0, h1, h2, h3⟩ := inv_of_run κ ops
+  exact holds_of_setupW (setupW_labelled order hb h0 h1 h2 h3 hf).1 (ofState_nonzero h0) allS valid hnc
+
+/-- **… with exact caches** (`variables` = the labels of the stored keys: a freshly constructed object, or any
+object no variable of which has been cancelled): the property at full strength, constant models included. -/
+theorem free_on_labelled_exact (fn : Fn) {κ : Kind} {ops : List Book.Op} {s : Book.State} (order : List Var)
+    (hs : s = Book.run Book.Fix.fixed κ ops) (hb : Book.hasBO s.kind = true) (hf : FnFits fn s.kind)
+    (hex : ∀ i, i ∈ s.variables ↔ ∃ kv ∈ s.terms, i ∈ kv.1)
+    (allS : Bool) (valid : Assign → Bool) (h : (ofState s).isConst = false ∨ valid [] = true) :
+    Holds fn (ofState s) allS valid order (bookVars s) ∧
+      ∀ i, i ∈ bookVars s ↔ ∃ kv ∈ s.terms, i ∈ kv.1 := by
+  subst hs
+  obtain ⟨h0, h1, h2, h3⟩ := inv_of_run κ ops
+  have S := setup_labelled (fn := fn) order hb h0 h1 h2 h3 hex hf
+  exact ⟨holds_of_setup S (ofState_nonzero h0) allS valid h, S.exact⟩
+
+/-- **… after `refresh()`** (solve, mutate, refresh, solve): no hypothesis on the caches is left. -/
+theorem free_on_refreshed (fn : Fn) {κ : Kind} {ops : List Book.Op} {s : Book.State} (order : List Var)
+    (hs : s = Book.run Book.Fix.fixed κ (ops ++ [.refresh])) (hb : Book.hasBO s.kind = true)
+    (hf : FnFits fn s.kind) (allS : Bool) (valid : Assign → Bool)
+    (h : (ofState s).isConst = false ∨ valid [] = true) :
+    Holds fn (ofState s) allS valid order (bookVars s) ∧
+      ∀ i, i ∈ bookVars s ↔ ∃ kv ∈ s.terms, i ∈ kv.1 :=
+  free_on_labelled_exact fn order hs hb hf (hs ▸ exact_of_refresh κ ops) allS valid h
+
+/-- **`M.solve_bruteforce(all)` of the four Matrix types, after any history**: a global minimiser over exactly the
+labels of the stored keys; with `all_solutions` every global minimiser exactly once and nothing else.  (Constant
+models included: `vars = []`, the result is `{}` / `[{}]`.) -/
+theorem method_on_matrix {κ : Kind} {ops : List Book.Op} {s : Book.State} {order : List Var}
+    (hs : s = Book.run Book.Fix.fixed κ ops) (hm : Book.hasBO s.kind = false)
+    (ho : SetOrder s.terms order) (allS : Bool) :
+    ∃ sol, methodPlain s allS order = .ok sol ∧
+      SolSpec (fnOfKind s.kind).spin order (fun _ => True) (fun g => eval g s.terms) allS sol :=
+  method_true_of_holds
+    (free_on_matrix (fnOfKind s.kind) hs hm ho (fits_fnOfKind s.kind) allS (fun _ => true) (Or.inr rfl))
+
+/-- **`obj.solve_bruteforce(all)` of `QUBO, QUSO, PUBO, PUSO` with exact caches** (in particular after
+`refresh()`, see `free_on_refreshed`): a global minimiser over exactly the model's variables / all of them once. -/
+theorem method_on_labelled_exact {κ : Kind} {ops : List Book.Op} {s : Book.State} (order : List Var)
+    (hs : s = Book.run Book.Fix.fixed κ ops) (hb : Book.hasBO s.kind = true)
+    (hex : ∀ i, i ∈ s.variables ↔ ∃ kv ∈ s.terms, i ∈ kv.1) (allS : Bool) :
+    ∃ sol, methodPlain s allS order = .ok sol ∧
+      SolSpec (fnOfKind s.kind).spin (bookVars s) (fun _ => True) (fun g => eval g s.terms) allS sol :=
+  method_true_of_holds
+    (free_on_labelled_exact (fnOfKind s.kind) order hs hb (fits_fnOfKind s.kind) hex allS (fun _ => true)
+      (Or.inr rfl)).1
+
+/-- **… after any history, not refreshed**, for a model with a stored non-constant key: over the variables the
+object reports. -/
+theorem method_on_labelled {κ : Kind} {ops : List Book.Op} {s : Book.State} (order : List Var)
+    (hs : s = Book.run Book.Fix.fixed κ ops) (hb : Book.hasBO s.kind = true) (allS : Bool)
+    (hnc : (ofState s).isConst = false) :
+    ∃ sol, methodPlain s allS order = .ok sol ∧
+      SolSpec (fnOfKind s.kind).spin (bookVars s) (fun _ => True) (fun g => eval g s.terms) allS sol :=
+  method_true_of_holds
+    (free_on_labelled (fnOfKind s.kind) order hs hb (fits_fnOfKind s.kind) allS (fun _ => true) hnc)
+
+/-- **`PCBO.solve_bruteforce(all)` / `PCSO.solve_bruteforce(all)` after any history** (`valid =
+self.is_solution_valid`), when every label of every recorded constraint is a variable of the object (otherwise
+`is_solution_valid` raises `KeyError` — known finding `C08:uncovered-constraint-variable`) and the model has a
+stored non-constant key: (a) if some assignment satisfies the recorded constraints, the result is an assignment
+over exactly the object's variables that satisfies them and minimises the model among those — with
+`all_solutions` exactly all of these, once each; (b) if none does, the result is `{}` / `[{}]`. -/
+theorem method_on_constrained {κ : Kind} {ops : List Book.Op} {s : Book.State}
+    (hs : s = Book.run Book.Fix.fixed κ ops) (hk : s.kind = .pcbo ∨ s.kind = .pcso)
+    (hc : ConsCover s.constraints (bookVars s)) (allS : Bool) (hnc : (ofState s).isConst = false) :
+    ((∃ g, Dom s.kind.isSpin g ∧ isValid (consSt s) g = true) →
+      ∃ sol, methodCons s allS = .ok sol ∧
+        SolSpec s.kind.isSpin (bookVars s) (fun g => isValid (consSt s) g = true) (fun g => eval g s.terms)
+          allS sol) ∧
+    ((∀ g, Dom s.kind.isSpin g → isValid (consSt s) g = false) →
+      methodCons s allS = .ok (emptySol allS)) := by
+  have hb : Book.hasBO s.kind = true := by rcases hk with h | h <;> simp [h, Book.hasBO, Kind.isMatrix]
+  have hen := reverse_mapping_enumeration hs hb
+  have H := methodCons_spec hk ((ofState_vars hb []).trans hen.1) hen.2.1 hc
+    (fun h => by rw [hnc] at h; cases h) allS
+    (fun _ => free_on_labelled (fnOfKind s.kind) [] hs hb (fits_fnOfKind s.kind) allS _ hnc)
+  exact ⟨H.1, fun hnone => H.2 hnone hnc⟩
+
+/-- **`Problem.solve_bruteforce` between `to_qubo` and `convert_solution`.**  `Q` the QUBO of the problem (a dict of
+degree ≤ 2 whose labels are among `0..N-1`, `N = num_binary_variables`; labels may be *absent* from `Q`, DESIGN.md
+§10 D7), `order` any iteration order of `{0, …, N-1}`: the assignment handed to `convert_solution` is over **all**
+`N` labels and minimises `Q`; with `all_solutions` the list is duplicate-free and consists of exactly the
+minimisers over all `N` labels. -/
+theorem problem_wrapper {Q : Poly} {N : Nat} {order : List Var} (hd : IsDict Q)
+    (hdeg : ∀ kv ∈ Q, kv.1.length ≤ 2) (hlab : ∀ kv ∈ Q, ∀ i ∈ kv.1, i < N)
+    (ho : order.Nodup ∧ ∀ i, i ∈ order ↔ i < N) (allS : Bool) :
+    ∃ sol, problemSolve Q N allS order = .ok sol ∧
+      SolSpec false order (fun _ => True) (fun g => eval g Q) allS sol := by
+  obtain ⟨p1, p2, p3, p4⟩ := padQ_spec hd hdeg N
+  have hso : SetOrder (padQ Q N) order :=
+    ⟨ho.1, fun i => (ho.2 i).trans ((p4 i).trans
+      ⟨fun h => h.elim (fun ⟨kv, hkv, hi⟩ => hlab kv hkv i hi) id, Or.inr⟩).symm⟩
+  obtain ⟨sol, hsol, hs⟩ := method_true_of_holds
+    (free_on_dict .qubo p1 hso (by simpa [Fn.DegOK] using p2) allS (fun _ => true) (Or.inr rfl))
+  refine ⟨sol, hsol, ?_⟩
+  have : (fun g => eval g (ofDict (padQ Q N)).terms) = fun g => eval g Q := funext p3
+  rw [this] at hs
+  exact hs
+
+/-! ### Clause 3 against clause 4: nothing valid on a constant model -/
+
+/-- **What the code does on a model without variables, for every `valid`** (in particular for one that rejects
+everything): it returns before the loop, never calls `valid`, and the objective is the constant — not `None`.
+The property text demands both "no assignment valid ⇒ objective None" and "constant model ⇒ the constant with
+`{}`"; on (constant model, `valid({}) = False`) they contradict each other and the code follows the second. -/
+theorem constant_model_ignores_valid (fn : Fn) (D : Model) (allS : Bool) (valid : Assign → Bool)
+    (order : List Var) (hc : D.isConst = true) :
+    ∃ out, solve fn D allS valid order = .ok out ∧ out.obj = some (get D.terms []) ∧
+      out.sol = emptySol allS := by
+  obtain ⟨after, h⟩ := solve_const (fn := fn) (allS := allS) (valid := valid) (order := order) hc
+  exact ⟨_, h, rfl, rfl⟩
+
+/-- **"No valid assignment ⇒ `None`" holds exactly for the models that have a variable.**  For every argument
+meeting `Setup` (every entry point above) and every `valid` that rejects all assignments over `vars`: the call
+returns, and its objective is `None` **iff** the model is not constant. -/
+theorem no_valid_none_iff {fn : Fn} {D : Model} {order vars : List Var} (S : Setup fn D order vars)
+    (allS : Bool) (valid : Assign → Bool)
+    (hnone : ∀ g, Dom fn.spin g → valid (restrict vars g) = false) :
+    ∃ out, solve fn D allS valid order = .ok out ∧ (out.obj = none ↔ D.isConst = false) := by
+  cases hc : D.isConst with
+  | false =>
+    obtain ⟨out, ho, h1, _⟩ := no_valid_none_partial S allS valid hc hnone
+    exact ⟨out, ho, fun _ => rfl, fun _ => h1⟩
+  | true =>
+    obtain ⟨out, ho, h1, _⟩ := constant_model_ignores_valid fn D allS valid order hc
+    refine ⟨out, ho, fun h => ?_, fun h => by cases h⟩
+    rw [h1] at h; cases h
+
 /-! ### Non-vacuity: concrete instances of the hypotheses -/
 
 /-- `Setup` is satisfiable: plain dict, set order `[2, 0, 1]` -/
@@ -201,5 +415,78 @@ example : (solve .pubo ⟨.dict, [([], 3), ([0], 1)], none⟩ false (fun _ => tr
 /-- stale bookkeeping (DESIGN.md §10 D1) is outside `Setup`: the model raises `KeyError` like the code -/
 example : (solve .pubo ⟨.pubo, [([1], 1)], some ⟨1, [(0, 0), (1, 1)]⟩⟩ false (fun _ => true) []).toOption.isSome
     = false := by decide +kernel
+
+/-! ### Non-vacuity of the entry-point theorems -/
+
+/-- a set order exists for every dict (the first-appearance listing), and any permutation of it is one -/
+example : SetOrder exD.terms (keyLabels exD.terms) ∧ keyLabels exD.terms = [0, 1, 2] ∧
+    SetOrder exD.terms [2, 0, 1] :=
+  ⟨setOrder_keyLabels _, by decide +kernel,
+   (setOrder_keyLabels _).perm (by rw [show keyLabels exD.terms = [0, 1, 2] by decide +kernel]; decide)⟩
+
+/-- `free_on_dict`: its hypotheses on a raw dict with an unsorted key, a repeated label and a zero coefficient -/
+example : IsDict [([2, 0], (1 : Rat)), ([1, 1], -1), ([0], 0), ([], 3)] ∧
+    (ofDict [([2, 0], (1 : Rat)), ([1, 1], -1), ([0], 0), ([], 3)]).isConst = false :=
+  ⟨by unfold IsDict; decide, by decide +kernel⟩
+
+/-- a Matrix object whose variable 2 was cancelled in place and not refreshed: the cache is stale … -/
+def exM : Book.State :=
+  Book.run Book.Fix.fixed .pubom [.setitem [0, 1] 1, .setitem [2] 3, .setitem [1] (-1), .augitem [2] .sub 3]
+
+example : Book.hasBO exM.kind = false ∧ exM.variables = [0, 1, 2] ∧ keyLabels exM.terms = [0, 1] ∧
+    (ofState exM).isConst = false := by decide +kernel
+
+/-- … and `method_on_matrix` applies; the model's answer: both minimisers of `x0 x1 - x1` over `{0, 1}` only -/
+example : methodPlain exM true [0, 1] = .ok (.many [[(0, 0), (1, 1)]]) := by decide +kernel
+
+/-- a labelled object (PUSO) with unsorted labels, whose variable 7 was cancelled: `bookVars` still lists it
+(`free_on_labelled` / `method_on_labelled`), and after `refresh()` it is gone (`free_on_refreshed`) -/
+def exL (refresh : Bool) : Book.State :=
+  Book.run Book.Fix.fixed .puso ([.setitem [5, 3] 1, .setitem [7] 2, .setitem [7] 0] ++ if refresh then [.refresh] else [])
+
+example : Book.hasBO (exL false).kind = true ∧ bookVars (exL false) = [5, 3, 7] ∧ bookVars (exL true) = [3, 5] ∧
+    (ofState (exL false)).isConst = false ∧ (ofState (exL true)).isConst = false := by decide +kernel
+
+example : methodPlain (exL false) true [] =
+    .ok (.many [[(5, 1), (3, -1), (7, 1)], [(5, 1), (3, -1), (7, -1)], [(5, -1), (3, 1), (7, 1)], [(5, -1), (3, 1), (7, -1)]]) ∧
+    methodPlain (exL true) true [] = .ok (.many [[(3, 1), (5, -1)], [(3, -1), (5, 1)]]) := by decide +kernel
+
+/-- a PCBO with the recorded constraint `x0 + x1 - 1 = 0`: covered by the variables, some assignment satisfies it
+(`method_on_constrained` (a)); the unconstrained minimiser `x0 = x1 = 1` of `-x0 - x1` is excluded -/
+def exC : Book.State :=
+  Book.run Book.Fix.fixed .pcbo [.setitem [0] (-1), .setitem [1] (-1), .cons .eq [([0], 1), ([1], 1), ([], -1)] 0 true none none]
+
+example : exC.kind = .pcbo ∧ (ofState exC).isConst = false ∧ exC.constraints = [(.eq, [([0], 1), ([1], 1), ([], -1)])] ∧
+    bookVars exC = [0, 1] := by decide +kernel
+
+example : ConsCover exC.constraints (bookVars exC) := by
+  rw [show exC.constraints = [(.eq, [([0], 1), ([1], 1), ([], -1)])] by decide +kernel,
+    show bookVars exC = [0, 1] by decide +kernel]
+  unfold ConsCover Covers
+  decide
+
+example : ∃ g, Dom exC.kind.isSpin g ∧ isValid (consSt exC) g = true :=
+  ⟨fun i => if i = 0 then 1 else 0, by
+    rw [show exC.kind.isSpin = false by decide +kernel]
+    intro i; by_cases h : i = 0 <;> simp [h], by
+    rw [show consSt exC = { terms := exC.terms, anc := exC.ancilla, cons := [(.eq, [([0], 1), ([1], 1), ([], -1)])] } by
+      unfold consSt; rw [show exC.constraints = [(.eq, [([0], 1), ([1], 1), ([], -1)])] by decide +kernel]]
+    simp [isValid, eval, mon, Rel.holds]⟩
+
+example : methodCons exC true = .ok (.many [[(0, 0), (1, 1)], [(0, 1), (1, 0)]]) := by decide +kernel
+
+/-- `constant_model_ignores_valid` / `no_valid_none_iff`: the corner itself —
+`solve_pubo_bruteforce({(): 5}, valid=lambda x: False) == (5, {})`, `PUBO().solve_bruteforce()` likewise -/
+example : (solve .pubo (ofDict [([], 5)]) false (fun _ => false) []).toOption.map (fun o => (o.obj, o.sol)) =
+    some (some 5, .one []) := by decide +kernel
+
+example : (solve .quso (ofDict []) true (fun _ => false) []).toOption.map (fun o => (o.obj, o.sol)) =
+    some (some 0, .many [[]]) := by decide +kernel
+
+/-- `problem_wrapper`: label 1 is absent from the QUBO `{(0,): -1, (0, 2): 2}` of a 3-variable problem; the wrapper
+still returns assignments over `0, 1, 2` -/
+example : padQ [([0], -1), ([0, 2], 2)] 3 = [([0], -1), ([0, 2], 2), ([1], 0), ([2], 0)] ∧
+    problemSolve [([0], -1), ([0, 2], 2)] 3 true [0, 1, 2] =
+      .ok (.many [[(0, 1), (1, 0), (2, 0)], [(0, 1), (1, 1), (2, 0)]]) := by decide +kernel
 
 end Qv.C09
